@@ -157,7 +157,13 @@ std::string compareFacts(const std::vector<ShapeFacts>& a, const std::vector<Sha
 					return S + "UV of vertex " + std::to_string(k) + " differs beyond half precision";
 		}
 		clause = "colors";
-		if (x.hasColors && !(colorsMayVanish && !y.hasColors)) {
+		// colours may only be dropped (and only when the library reports it) if every source colour is
+		// opaque white, i.e. 0xFFFFFFFF: decided here from the source values, not from the report
+		bool allWhite = true;
+		for (auto& c : x.colors)
+			if (c.r < 1.0f || c.g < 1.0f || c.b < 1.0f || c.a < 1.0f)
+				allWhite = false;
+		if (x.hasColors && !(colorsMayVanish && allWhite && !y.hasColors)) {
 			if (!y.hasColors || y.colors.size() != x.colors.size())
 				return S + "vertex colours lost";
 			for (size_t k = 0; k < x.colors.size(); k++) {
@@ -288,8 +294,18 @@ Verdict prop(Tape& t, Run& run) {
 			}
 			if (t.chance(40)) {
 				std::vector<Color4> white(g.shape->GetNumVertices(), Color4(1, 1, 1, 1));
+				// all white; white with a per-vertex alpha fade (hair, foliage); white except one component
+				uint8_t cls = t.u8() % 4;
+				if (cls == 1)
+					for (size_t k = 0; k < white.size(); k++)
+						white[k].a = ((k * 37 + 11) % 256) / 255.0f;
+				else if (cls == 2 && !white.empty())
+					white[t.u16() % white.size()].a = 254.0f / 255.0f;
+				else if (cls == 3 && !white.empty())
+					(&white[t.u16() % white.size()].r)[t.u8() % 3] = 254.0f / 255.0f;
 				nif.SetColorsForShape(g.shape, white);
-				desc += "+white-colours ";
+				desc += cls == 0 ? "+white-colours " : cls == 1 ? "+white-with-alpha-fade " : cls == 2 ? "+white-one-alpha-254 " : "+white-one-component-254 ";
+				run.cls(cls == 0 ? "colours:all-white" : cls == 1 ? "colours:white-alpha-fade" : "colours:white-but-one");
 			}
 			// NiOptimizeKeep marks static particle-emitter meshes; on a skinned shape the converted SSE block
 			// stores particle arrays that its own reader cannot size (observation in DESIGN.md section 4)
